@@ -281,6 +281,9 @@ fn build_ctx() -> Ctx {
         ("a1".into(), [alphabet[A].nulls[0]].into_iter().collect()),
         ("b1,c1".into(), [alphabet[B].nulls[0], alphabet[CC].nulls[0]].into_iter().collect()),
         ("unknown".into(), [digest_of(null_felts(999))].into_iter().collect()),
+        // both nullifiers of one proof plus a nullifier of the proof queued behind it in the same
+        // bucket (a miner's own public batch settling): one proof is hit twice by one set
+        ("a1,a2,b1".into(), [alphabet[A].nulls[0], alphabet[A].nulls[1], alphabet[B].nulls[0]].into_iter().collect()),
     ];
     let mut ops: Vec<(String, Op)> = Vec::new();
     for (i, a) in alphabet.iter().enumerate() {
